@@ -14,6 +14,10 @@ structure Input where
   blocks : List (List VSpec)
   /-- const blocks inside function bodies (legal Go, not declarations of the package) -/
   locals : List (List VSpec) := []
+  /-- const declarations of GENERATED files that are already in the package when shoot runs again (a
+      re-run over its own output): makeStr walks every file of the package, these included; they are
+      not part of the hand-written declaration -/
+  generated : List (List VSpec) := []
   deriving Repr
 
 /-! ## the declared constants of T, by the Go language rule -/
@@ -39,7 +43,15 @@ def Input.decl (i : Input) : List Const := declared i.T i.blocks
 
 /-- every const declaration of the package, those inside function bodies included (only used to say
     that a case is a well-formed package; makeStr walks `blocks` alone) -/
-def Input.allBlocks (i : Input) : List (List VSpec) := i.blocks ++ i.locals
+def Input.allBlocks (i : Input) : List (List VSpec) := i.blocks ++ i.locals ++ i.generated
+
+/-- the package-level const declarations makeStr walks: the hand-written ones and those of generated
+    files left in the package -/
+def Input.scanned (i : Input) : List (List VSpec) := i.blocks ++ i.generated
+
+/-- the only const declaration the enum template emits is `const _<t>_max = A | B | …`: no type, a
+    value (its constants have the enum type through their operands) -/
+def templateConst (s : VSpec) : Bool := s.ty.isNone && s.hasVals
 
 /-! ## C04 -/
 
@@ -92,7 +104,7 @@ def specOK (T : Name) (s : VSpec) : Bool :=
     declared constants: the type name is an identifier, no spec gets the type through a typed expression -/
 def grammarOK (i : Input) : Bool :=
   !i.T.isEmpty && !qualified i.T && decide (0 < i.kind.bits) && decide (i.kind.bits ≤ 64) &&
-    i.blocks.all (fun b => b.all (specOK i.T))
+    i.blocks.all (fun b => b.all (specOK i.T)) && i.generated.all (fun b => b.all templateConst)
 
 /-- the case is well formed at all (a real package) -/
 def basicOK (i : Input) : Bool :=
@@ -110,7 +122,7 @@ def valuesInKind (k : Kind) (decl : List Const) : Bool := decl.all (fun c => k.h
     grammar `grammarOK` is inside), there is at least one, values and trimmed names are distinct and
     the values are values of the type -/
 def WF (i : Input) : Bool :=
-  basicOK i && (collect i.T i.blocks == i.decl) && !i.decl.isEmpty && nodupOK i.T i.decl &&
+  basicOK i && (collect i.T i.scanned == i.decl) && !i.decl.isEmpty && nodupOK i.T i.decl &&
     valuesInKind i.kind i.decl
 
 def Out (i : Input) : Bool := !WF i
